@@ -11,7 +11,8 @@ def cfgs(tier):
     if tier == "quick":
         # the 64-bit C masked code is also what builds with the direct-XOR / generic plain backends use: those builds see other
         # preprocessor symbols, so they are configurations of their own
-        return [Cfg(b, *t) for b in MASKED_BACKENDS for t in ((4, 2, 4), (3, 3, 3), (2, 1, 2), (4, 4, 4))] + [Cfg("dxor", 3, 3, 3), Cfg("dxor", 4, 2, 4), Cfg("generic", 4, 4, 4)]
+        return [Cfg(b, *t) for b in MASKED_BACKENDS for t in ((4, 2, 4), (3, 3, 3), (2, 1, 2), (4, 4, 4))] + [Cfg("dxor", 3, 3, 3), Cfg("dxor", 4, 2, 4), Cfg("generic", 4, 4, 4),
+                                                                                                                    Cfg("asm", 2, 2, 4), Cfg("asm", 3, 2, 4), Cfg("c32", 2, 1, 3)]      # fewer key shares than the maximum
     return [Cfg(b, *t) for b in MASKED_BACKENDS + ["dxor"] for t in share_tuples()] + [Cfg("generic", 4, 2, 4), Cfg("generic", 3, 3, 3)]
 
 
